@@ -356,6 +356,10 @@ def roots(ctx):
             i += 1
     # integer samples close to the limits of their type: every intermediate result of a program wraps
     # as the eager expression does (a deferred program must not be simplified algebraically)
+    # a recording in three files (bounds of the third part)
+    out.append({'backend': 'flat', 'dtype': 'int16', 'n_channels': 3, 'offset': 0, 'parts': [1, 2, 2],
+                'sample_rate': 2 / 600.0, 'fill': ctx.seed + i, 'chunk': 2})
+    i += 1
     for backend, dt in (('flat', 'int16'), ('array', 'uint8'), ('npy', 'int16')):
         out.append({'backend': backend, 'dtype': dt, 'n_channels': 3, 'offset': 0,
                     'parts': [2, 3] if backend == 'flat' else [5], 'sample_rate': 2 / 600.0,
